@@ -34,13 +34,13 @@ CHECKS = {
                 text="Strings are fed to get / get_many / GetIter; a sent datagram must carry exactly the denoted OID in canonical form, a refusal must send nothing; valid strings round-trip through the agent's echo.",
                 note="The 'may' class (leading zeros, '+', 2.x with x>=40) accepts refusal or correct transmission."),
     "C09": dict(level="exploration", tech="property-based v3 histories (Hypothesis); oracle = hmac/hashlib recomputation with independently derived localized keys",
-                text="Every datagram of generated v3 histories (varying engine id / user lengths, boots/time widths, request sizes across length-form boundaries, key types) has its HMAC-96 and flags recomputed independently.",
+                text="Every datagram of generated v3 histories (varying engine id / user lengths, boots/time widths, request sizes across length-form boundaries, key types) has its HMAC-96 and flags recomputed independently. A second stage covers sessions of the real clients that install their keys after discovery.",
                 note="hashlib/hmac and refusm.py key derivation (RFC 3414 A.3 vectors checked at import)."),
     "C10": dict(level="fault_enumeration", tech="complete enumeration of the forgery class grid + property-based variation (Hypothesis); oracle = acceptance rule of the property, positive control included",
                 text="Every (digest, cipher, MAC class, flag, clear/encrypted, body, operation) combination is sent as an otherwise matching reply followed by the genuine one; forged GetResponses must be skipped, authentic ones delivered.",
                 note="Forged replies copy user, engine id, msgID and request-id from the wire; Reports may be accepted either way."),
     "C11": dict(level="exploration", tech="property-based session histories (Hypothesis); oracle = independent pure-Python DES-CBC / AES-128-CFB decrypting every emitted message, and exact delivery of agent-encrypted replies",
-                text="Histories of sends, encrypted replies (own salts, arbitrary padding), clear Reports, time-outs and garbage on privacy sessions; each ciphertext must decrypt to exactly the expected scoped PDU plus less than one block of padding.",
+                text="Histories of sends, encrypted replies (own salts, arbitrary padding), clear Reports, time-outs and garbage on privacy sessions; each ciphertext must decrypt to exactly the expected scoped PDU plus less than one block of padding. A second stage covers sessions of the real clients that install their keys after discovery.",
                 note="refusm.py DES/AES validated on FIPS 81 / SP 800-38A / FIPS 197 vectors at import."),
     "C12": dict(level="exploration", tech="property-based testing (Hypothesis) against hashlib implementations of RFC 3414 A.2; session keys observed through MAC validity and decryptability; malformed-material grid with outcome-class oracle",
                 text="Password lengths around 2^20 and its divisors, engine ids 0..32 octets, all key types through the raw constructor, set_keys and User/*Key; malformed keys / codes / empty passwords must raise an Exception; master / localized privacy keys of 0..64 octets are aligned to the auth digest size by User() and used so.",
@@ -49,7 +49,7 @@ CHECKS = {
                 text="Discovery / given engine id x with / refresh() / none x sync / async x all security levels: every message's USM header, MAC and ciphertext must follow the model; foreign-engine replies must be dropped.",
                 note="Localized keys are derived by the caller for the agent's engine id."),
     "C14": dict(level="exploration", tech="property-based long send sequences (Hypothesis); invariant oracle over the history of msgPrivacyParameters + leak scan of marker OIDs after reference decryption",
-                text="Sequences of up to 2000 (quick) / 10^5 (thorough) sends with interleaved receives, time-outs, boots changes and set_keys; salts must be 8 octets, advance by one, never repeat per installation; marker arcs never appear outside msgData.",
+                text="Sequences of up to 2000 (quick) / 10^5 (thorough) sends with interleaved receives, time-outs, boots changes and set_keys; salts must be 8 octets, advance by one, never repeat per installation; marker arcs never appear outside msgData. A second stage covers sessions of the real clients that install their keys after discovery.",
                 note="Counter wrap-around is out of reach (random private seed)."),
     "C15": dict(level="exploration", engine=E2, tech="property-based testing (proptest) + exhaustive enumeration of 1..3-octet INTEGERs and boundary neighbourhoods; oracle = independent minimal encoder (byte equality) and round-trip",
                 text="Every i64 of 1..2 (quick) / 1..3 (thorough) content octets and boundary neighbourhoods exhaustively, random i64, OIDs, OCTET STRINGs and v1/v2c/v3 request messages: encode == independent minimal encoder, decode(encode(x)) == x; scoped PDUs through the library's DES / AES encrypt -> decrypt -> decode give the PDU back, ciphertext length = reference length + < 1 block.",
